@@ -47,6 +47,9 @@ def synth_valid(mod, rnd, per_len=2):
     return out
 
 
+BUILD = {'mva': lambda x: x + 'MVA', 'sevat': lambda x: x + '01', 'chvat': lambda x: x + ' MWST', 'ytunnus': lambda x: x[:-1] + '-' + x[-1:]}
+
+
 def vat_module(pfx):
     from stdnum.util import get_cc_module
     if pfx in ('EU', 'IM'):
@@ -143,18 +146,42 @@ def worker(unit, emit):
                         e['guess'] = ['!' + g['cls']]
                 emit.trace([e], {'m': wname, 'w': x, 'how': 'union: wrapper %s / parts %s' % (wr['cls'] or 'accepted', [r['cls'] or 'accepted' for r in prs]), 'site': wr['site']})
                 emit.count('union')
-    elif kind == 'superset':
+    elif kind in ('superset', 'superset10'):
         wname, parts = unit[1], unit[2]
         w = lib.module(wname)
         for n in parts:
             m = lib.module(n)
-            for x0 in lib.pick(lib.corpus(n, m), p['bases'] * 2, rnd):
+            for x0 in lib.pick(lib.corpus(n, m), p['bases'] * 2, rnd) + synth_valid(m, rnd, 4):
                 for x in variants(x0, rnd):
                     inner = lib.call(m.validate, x)
+                    if kind == 'superset10' and not (inner['k'] == 'ret' and len(inner['v']) == 10):
+                        continue
+                    # the wrapper is asked about the constituent's canonical form (each format strips its own separators/prefix)
+                    if wname != 'es.nif' and inner['k'] == 'ret' and inner['t'] == 'str':
+                        x = lib.from_cps(inner['v'])
                     outer = lib.call(w.validate, x)
                     emit.trace([{'kind': 'superset', 'inner': sl(inner), 'outer': sl(outer), 'same': False}],
                                {'m': wname, 'w': x, 'how': '%s over %s: %s / %s' % (wname, n, outer['cls'] or 'accepted', inner['cls'] or 'accepted'), 'site': outer['site']})
                     emit.count('superset')
+    elif kind == 'iff':
+        wname, iname, build = unit[1], unit[2], unit[3]
+        w, m = lib.module(wname), lib.module(iname)
+        nums = lib.pick(lib.corpus(iname, m), p['bases'] * 2, rnd) + synth_valid(m, rnd)
+        for x0 in dict.fromkeys(nums):
+            try:
+                c0 = m.compact(x0)
+            except Exception:
+                continue
+            for x in variants(c0, rnd):
+                x = x.strip()
+                if not x or ' ' in x or '-' in x:
+                    continue
+                inner = lib.call(m.validate, x)
+                y = BUILD[build](x)
+                outer = lib.call(w.validate, y)
+                emit.trace([{'kind': 'iff', 'inner': sl(inner), 'outer': sl(outer)}],
+                           {'m': wname, 'w': y, 'how': '%s(%r) vs %s(%r): %s / %s' % (wname, y, iname, x, outer['cls'] or 'accepted', inner['cls'] or 'accepted'), 'site': outer['site']})
+                emit.count('iff')
     elif kind == 'iban':
         from stdnum import iban
         from stdnum.util import get_cc_module
@@ -198,7 +225,11 @@ def main():
               ('union', 'be.ssn', ['be.nn', 'be.bis'], False, 'guess_type', p),
               ('union', 'th.tin', ['th.moa', 'th.pin'], False, 'tin_type', p),
               ('union', 'ro.cf', ['ro.cnp', 'ro.cui'], False, None, p),
-              ('superset', 'es.nif', ['es.dni', 'es.nie', 'es.cif'], p)]
+              ('superset', 'es.nif', ['es.dni', 'es.nie', 'es.cif'], p),
+              ('superset10', 'sk.dph', ['sk.rc'], p), ('superset10', 'bg.vat', ['bg.egn', 'bg.pnf'], p), ('superset', 'cz.dic', ['cz.rc'], p),
+              ('superset', 'it.codicefiscale', ['it.iva'], p),
+              ('iff', 'no.mva', 'no.orgnr', 'mva', p), ('iff', 'se.vat', 'se.orgnr', 'sevat', p), ('iff', 'ch.vat', 'ch.uid', 'chvat', p),
+              ('iff', 'fi.ytunnus', 'fi.alv', 'ytunnus', p)]
     rnd = random.Random(chk.seed)
     ib = lib.corpus('iban', lib.module('iban'))
     for nm in ('be.iban', 'es.iban', 'me.iban', 'no.iban'):
@@ -211,12 +242,12 @@ def main():
     units.append(('ccmod', [c.rstrip('_') for c in ccs] + ['xx', 'el'], p))
     shards = chk.drive(units, worker)
     extra = run.merge_extra(shards)
-    rej = chk.validate('Trace_Dispatch', shards, own_clauses={'EV1', 'EV2', 'SUP', 'UNI1', 'UNI2', 'UNI3', 'IB1', 'IB2', 'GC', 'CCM'})
+    rej = chk.validate('Trace_Dispatch', shards, own_clauses={'EV1', 'EV2', 'SUP', 'IFF', 'UNI1', 'UNI2', 'UNI3', 'IB1', 'IB2', 'GC', 'CCM'})
     chk.report(rej)
-    return chk.finish(samples=first_meta(shards), distinct_nontrivial=sum(extra.get(k, 0) for k in ('euvat', 'superset', 'union', 'iban', 'guess', 'ccmod')),
+    return chk.finish(samples=first_meta(shards), distinct_nontrivial=sum(extra.get(k, 0) for k in ('euvat', 'superset', 'iff', 'union', 'iban', 'guess', 'ccmod')),
                       rule='per relation: valid constituent numbers of every member state / sub-type, 3 random single-character edits, truncation, '
                            'extension, case / spacing / prefix variants, other countries\' numbers under this prefix; ASCII only (the projection is '
-                           'recomputed by the spec)', extra={k: extra.get(k, 0) for k in ('euvat', 'superset', 'union', 'iban', 'guess', 'ccmod')})
+                           'recomputed by the spec)', extra={k: extra.get(k, 0) for k in ('euvat', 'superset', 'iff', 'union', 'iban', 'guess', 'ccmod')})
 
 
 if __name__ == '__main__':
